@@ -139,7 +139,7 @@ def rnd_poly(rng, holes_ok=True):
     k = rng.randrange(len(ring))
     ring = ring[k:] + ring[:k]
     holes = []
-    if holes_ok and b is BASES[0] and sc >= 1 and rng.random() < 0.5:
+    if holes_ok and b is BASES[0] and sc >= 1 and rng.random() < 0.65:
         xs, ys = [p[0] for p in ring], [p[1] for p in ring]
         x0, y0, w = min(xs), min(ys), (max(xs) - min(xs))
         holes.append([(x0 + w * F(3, 8), y0 + w * F(3, 8)), (x0 + w * F(5, 8), y0 + w * F(3, 8)),
@@ -205,7 +205,7 @@ def derive(rng, A):
         m = ((a[0] + b[0]) / 2, (a[1] + b[1]) / 2)
         xs, ys = [p[0] for p in ring], [p[1] for p in ring]
         cx, cy = (min(xs) + max(xs)) / 2, (min(ys) + max(ys)) / 2
-        k = rng.randrange(12)
+        k = rng.choice([0, 1, 2, 3, 4, 5, 6, 6, 7, 7, 7, 8, 9, 10, 11]) if A.holes else rng.randrange(12)
         if k == 0:
             return planar.PShape('pt', pts=[v])
         if k == 1:
@@ -226,6 +226,11 @@ def derive(rng, A):
             h = A.holes[0][:-1]
             hx, hy = sum(p[0] for p in h) / len(h), sum(p[1] for p in h) / len(h)
             return planar.PShape('poly', raw=[(hx + (x - hx) / 2, hy + (y - hy) / 2) for x, y in h])
+        if k == 7 and A.holes and rng.random() < 0.5:   # concentric annulus: surrounds A's hole, its own hole inside A's hole
+            h = A.holes[0][:-1]
+            hx, hy = sum(p[0] for p in h) / len(h), sum(p[1] for p in h) / len(h)
+            return planar.PShape('poly', raw=[(hx + (x - hx) * F(3, 2), hy + (y - hy) * F(3, 2)) for x, y in h],
+                                 holes=[[(hx + (x - hx) / 2, hy + (y - hy) / 2) for x, y in h]])
         if k == 7 and A.holes:   # surrounds a hole, stays inside the shell
             h = A.holes[0][:-1]
             hx, hy = sum(p[0] for p in h) / len(h), sum(p[1] for p in h) / len(h)
